@@ -604,14 +604,24 @@ func injectSemantic(t *rapid.T, files []*textgen.File) (fault string, culprit *r
 	return "none", nil, ""
 }
 
+// farRight: in one text of 25 a statement with a very long argument stands in front, on the same line, so that what
+// follows on that line has columns beyond 2^16 (a minified module is one such line).
+func farRight(t *rapid.T) string {
+	if rapid.IntRange(0, 24).Draw(t, "far-right") != 0 {
+		return ""
+	}
+	n := rapid.SampledFrom([]int{65520, 65530, 65536, 65600, 70000, 131100}).Draw(t, "columns-in-front")
+	return "k \"" + strings.Repeat("x", n) + "\"; "
+}
+
 func gen(t *rapid.T) Case {
 	switch rapid.IntRange(0, 9).Draw(t, "domain") {
 	case 0, 1: // accepted texts with rich layout
 		f := textgen.Forest(t)
-		return Case{Kind: "text", Text: textgen.Render(t, f)}
+		return Case{Kind: "text", Text: farRight(t) + textgen.Render(t, f)}
 	case 2, 3, 4: // one lexical/syntactic fault
 		f := textgen.Forest(t)
-		return Case{Kind: "text", Text: injectLexFault(t, textgen.Render(t, f))}
+		return Case{Kind: "text", Text: farRight(t) + injectLexFault(t, textgen.Render(t, f))}
 	case 5: // module texts as position material (statement positions of real modules)
 		files := textgen.ModuleSet(t)
 		ft := render(t, files, false)
